@@ -1,9 +1,13 @@
 package checks
 
 import (
+	"bufio"
 	"bytes"
 	"encoding/binary"
 	"fmt"
+	"io"
+	"os"
+	"path/filepath"
 
 	"github.com/tormoder/fit"
 
@@ -19,7 +23,7 @@ func registerC05() {
 		Level: "exploration",
 		Rule: "Files built through the public API (NewHeader, NewFile, message constructors, exported fields) for all 17 file types x all hosted message types; field subsets " +
 			"{none, one, half, all, PRNG} differing between messages of one slice (forces the union definition); boundary and PRNG values; both byte orders; headers with and " +
-			"without CRC; protocol V10/V20; every third case is preceded by an Encode that fails (writer error on the 1st-3rd write, or a string that is not valid UTF-8). The bytes Encode writes are parsed by the independent strict grammar parser (header, data size, both CRCs, definition before data, " +
+			"without CRC; protocol V10/V20; every fifth File is also encoded into a writer of another dynamic type (a file on disk, a bytes.Buffer already holding data, a bufio.Writer, a writer offering Seek/WriteAt/WriteString/ReadFrom) and must give the same bytes; every third case is preceded by an Encode that fails (writer error on the 1st-3rd write, or a string that is not valid UTF-8). The bytes Encode writes are parsed by the independent strict grammar parser (header, data size, both CRCs, definition before data, " +
 			"record lengths, size multiple of base size, known base byte, arch byte), every definition is checked against the profile, the stream is interpreted by the reference " +
 			"interpreter and compared with the File's own values, and the File's header data size / header CRC / file CRC are compared with the bytes written. Non-trivial: the File " +
 			"has at least two messages with a field set; distinct by digest of the encoded bytes",
@@ -48,7 +52,8 @@ func genRoundTripFile(rng *lib.Rand, idx uint64, noSources bool) (*fit.File, byt
 		o.MaxPerSlot = 40 + rng.Intn(300) // long slices: one definition serving hundreds of records, files of 10-300 KB
 	}
 	if idx%389 == 0 {
-		o.Phased = true // slices of 600-1100 messages whose set fields change from phase to phase
+		o.Phased = true // slices of 600-1100 (every fourth: 4500-9000) messages whose set fields change from phase to phase
+		o.PhasedLong = idx%(389*4) == 0
 	}
 	return lib.GenFile(rng, o), ft, arch
 }
@@ -177,6 +182,65 @@ func c05Case(c *lib.Ctx, idx uint64) {
 		c.Violation(out, "after Encode, File.Header.CRC = %#x, but %#x was written (documentation: file.Header.CRC will be updated to the correct value)", f.Header.CRC, parsed.HeaderCRC)
 		return
 	}
+	// The same File into writers of other dynamic types must give the same bytes: a file on disk
+	// (io.Seeker, io.WriterAt, io.ReaderFrom ...), a bytes.Buffer that already holds data, a bufio
+	// writer, and a writer offering Seek/WriteAt/WriteString/ReadFrom itself.
+	if idx%5 == 0 {
+		f2 := remakeFile(idx)
+		if f2 != nil {
+			kind := int(idx/5) % 4
+			var got []byte
+			var werr error
+			wo := lib.Guard(func() {
+				switch kind {
+				case 0:
+					dir := filepath.Join(lib.OutDir(), "work", "C05")
+					os.MkdirAll(dir, 0o755)
+					tf, e := os.CreateTemp(dir, "enc-*.fit")
+					if e != nil {
+						werr = nil
+						got = out
+						return
+					}
+					defer os.Remove(tf.Name())
+					werr = fit.Encode(tf, f2, archOrder(arch))
+					tf.Close()
+					got, _ = os.ReadFile(tf.Name())
+				case 1:
+					pre := []byte("earlier content of the buffer")
+					buf := bytes.NewBuffer(append([]byte{}, pre...))
+					werr = fit.Encode(buf, f2, archOrder(arch))
+					b := buf.Bytes()
+					if len(b) >= len(pre) && bytes.Equal(b[:len(pre)], pre) {
+						got = b[len(pre):]
+					} else {
+						got = append([]byte("<earlier content overwritten>"), b...)
+					}
+				case 2:
+					var buf bytes.Buffer
+					bw := bufio.NewWriterSize(&buf, 64)
+					werr = fit.Encode(bw, f2, archOrder(arch))
+					bw.Flush()
+					got = buf.Bytes()
+				default:
+					sw := &seekWriter{}
+					werr = fit.Encode(sw, f2, archOrder(arch))
+					got = sw.data
+				}
+			})
+			c.Eval()
+			kinds := []string{"*os.File", "*bytes.Buffer holding earlier data", "*bufio.Writer", "writer with Seek/WriteAt/WriteString/ReadFrom"}
+			if wo.Panicked {
+				c.Violation(out, "Encode into a %s panicked: %s", kinds[kind], wo.Panic)
+				return
+			}
+			if werr != nil || !bytes.Equal(got, out) {
+				c.Violation(out, "Encode of the same File into a %s: error %v, %d bytes; into a plain writer: %d bytes; the outputs differ (first difference at byte %d)", kinds[kind], werr, len(got), len(out), firstDiff(got, out))
+				return
+			}
+			c.Count("writer_kind_"+kinds[kind], 1)
+		}
+	}
 	ndef, ndata := 0, 0
 	for i := range parsed.Records {
 		if parsed.Records[i].IsDef {
@@ -192,6 +256,68 @@ func c05Case(c *lib.Ctx, idx uint64) {
 		c.Nontrivial(out)
 	}
 	c.Sample("file", 2, map[string]interface{}{"file_type": ft, "arch": arch, "bytes": len(out), "definitions": ndef, "data_records": ndata})
+}
+
+// remakeFile rebuilds the File of case idx (the generators are deterministic).
+func remakeFile(idx uint64) *fit.File {
+	rng := lib.NewRand("C05.files", idx)
+	f, _, _ := genRoundTripFile(rng, idx, false)
+	return f
+}
+
+func firstDiff(a, b []byte) int {
+	for i := 0; i < len(a) && i < len(b); i++ {
+		if a[i] != b[i] {
+			return i
+		}
+	}
+	return minInt(len(a), len(b))
+}
+
+// seekWriter is an in-memory file: io.Writer, io.Seeker, io.WriterAt, io.StringWriter, io.ReaderFrom.
+type seekWriter struct {
+	data []byte
+	pos  int
+}
+
+func (w *seekWriter) Write(p []byte) (int, error) {
+	if need := w.pos + len(p); need > len(w.data) {
+		w.data = append(w.data, make([]byte, need-len(w.data))...)
+	}
+	copy(w.data[w.pos:], p)
+	w.pos += len(p)
+	return len(p), nil
+}
+
+func (w *seekWriter) WriteString(s string) (int, error) { return w.Write([]byte(s)) }
+
+func (w *seekWriter) WriteAt(p []byte, off int64) (int, error) {
+	if need := int(off) + len(p); need > len(w.data) {
+		w.data = append(w.data, make([]byte, need-len(w.data))...)
+	}
+	copy(w.data[off:], p)
+	return len(p), nil
+}
+
+func (w *seekWriter) Seek(off int64, whence int) (int64, error) {
+	switch whence {
+	case io.SeekStart:
+		w.pos = int(off)
+	case io.SeekCurrent:
+		w.pos += int(off)
+	case io.SeekEnd:
+		w.pos = len(w.data) + int(off)
+	}
+	if w.pos < 0 {
+		w.pos = 0
+	}
+	return int64(w.pos), nil
+}
+
+func (w *seekWriter) ReadFrom(r io.Reader) (int64, error) {
+	b, err := io.ReadAll(r)
+	n, _ := w.Write(b)
+	return int64(n), err
 }
 
 // failWriter fails on its n-th Write call.
